@@ -136,6 +136,7 @@ type sysEvent struct {
 var (
 	reOpenat = regexp.MustCompile(`^\d+\s+openat\(AT_FDCWD, "((?:[^"\\]|\\.)*)", ([A-Z_|0-9]+)(?:, \d+)?\)\s+= (-?\d+)(.*)$`)
 	reWrite  = regexp.MustCompile(`^\d+\s+write\((\d+), .*\)\s+= (-?\d+)(.*)$`)
+	reRead   = regexp.MustCompile(`^\d+\s+read\((\d+), .*\)\s+= (-?\d+)(.*)$`)
 	reClose  = regexp.MustCompile(`^\d+\s+close\((\d+)\)`)
 	rePathOp = regexp.MustCompile(`^\d+\s+(creat|mkdir|mkdirat|unlink|unlinkat|rename|renameat|renameat2|rmdir|truncate|ftruncate|chmod|fchmod|fchmodat|link|linkat|symlink|symlinkat)\((.*)\)\s+= (-?\d+)(.*)$`)
 	reQuoted = regexp.MustCompile(`"((?:[^"\\]|\\.)*)"`)
@@ -220,6 +221,12 @@ func parseStrace(log string) []sysEvent {
 			evs = append(evs, sysEvent{Call: "write", Fd: fd, Path: fdPath[fd], Ret: m[2], Failed: r < 0, Inject: strings.Contains(m[3], "INJECTED")})
 			continue
 		}
+		if m := reRead.FindStringSubmatch(line); m != nil {
+			fd, _ := strconv.Atoi(m[1])
+			r, _ := strconv.Atoi(m[2])
+			evs = append(evs, sysEvent{Call: "read", Fd: fd, Path: fdPath[fd], Ret: m[2], Failed: r < 0, Inject: strings.Contains(m[3], "INJECTED")})
+			continue
+		}
 		if m := reClose.FindStringSubmatch(line); m != nil {
 			fd, _ := strconv.Atoi(m[1])
 			delete(fdPath, fd)
@@ -246,6 +253,7 @@ type c16Run struct {
 	outKind  string // ok | missing | file | symlink
 	pkgPre   string // none | emptydir | dirwithfiles | file | dangling | symlinkdir
 	inject   string // strace inject expression ("" = none)
+	gramName string // the name the specification declares, for generated specifications
 	useTrace bool
 }
 
@@ -307,6 +315,9 @@ func c16Execute(c *ctx, bin string, r c16Run) {
 		_ = os.Symlink(realOut, out)
 	}
 	effName := r.pkgName
+	if effName == "" && r.gramName != "" {
+		effName = r.gramName
+	}
 	if effName == "" {
 		effName = "calc"
 		if strings.HasPrefix(r.text, "grammar kw") {
@@ -351,7 +362,7 @@ func c16Execute(c *ctx, bin string, r c16Run) {
 	var cmd *exec.Cmd
 	traceFile := filepath.Join(os.TempDir(), fmt.Sprintf("verif-c16-trace-%d-%d", os.Getpid(), c.res.Evaluations))
 	if r.useTrace {
-		sargs := []string{"-f", "-qq", "-s", "0", "-e", "trace=openat,creat,mkdir,mkdirat,unlink,unlinkat,rename,renameat,renameat2,rmdir,truncate,ftruncate,chmod,fchmod,fchmodat,link,linkat,symlink,symlinkat,write,close"}
+		sargs := []string{"-f", "-qq", "-s", "0", "-e", "trace=openat,creat,mkdir,mkdirat,unlink,unlinkat,rename,renameat,renameat2,rmdir,truncate,ftruncate,chmod,fchmod,fchmodat,link,linkat,symlink,symlinkat,write,close,read"}
 		if r.inject != "" {
 			sargs = append(sargs, "-e", "inject="+r.inject)
 		}
@@ -425,13 +436,23 @@ func c16Execute(c *ctx, bin string, r c16Run) {
 	faultOnOutput := false
 	faultAny := false
 	faultOnConsole := false
+	faultOnInput, faultOnOtherRead := false, false
 	for _, e := range evs {
+		if e.Inject && e.Call == "read" {
+			if e.Path != "" && absIn(sb, e.Path) == specPath {
+				faultOnInput = true
+			} else {
+				faultOnOtherRead = true // the runtime probing /sys, /proc ...: not the tool's business
+			}
+			continue
+		}
 		if e.Inject && e.Call == "write" && e.Fd <= 2 {
 			faultOnConsole = true // a message could not be printed: what was announced is not observable
 		}
 		if e.Inject {
 			faultAny = true
 			switch e.Call {
+			case "read":
 			case "write":
 				if e.Fd > 2 && strings.HasSuffix(e.Path, ".go") {
 					faultOnOutput = true
@@ -512,13 +533,21 @@ func c16Execute(c *ctx, bin string, r c16Run) {
 	var ref map[string]string
 	refWhy := ""
 	expectSuccess := false
-	if r.text != "" && (r.fileKind == "valid" || r.fileKind == "valid2" || r.fileKind == "lexical" || r.fileKind == "syntax" || r.fileKind == "illformed" || r.fileKind == "overlap" || r.fileKind == "conflict") {
+	if r.text != "" && (r.fileKind == "valid" || r.fileKind == "valid2" || r.fileKind == "gen" || r.fileKind == "lexical" || r.fileKind == "syntax" || r.fileKind == "illformed" || r.fileKind == "overlap" || r.fileKind == "conflict") {
 		n := r.pkgName
 		if !nameUsable {
 			n = ""
 		}
 		ref, refWhy = referenceGeneration(r.text, n)
-		expectSuccess = ref != nil && nameUsable && (r.outKind == "ok" || r.outKind == "symlink") && r.pkgPre == "none" && !faultOnOutput
+		expectSuccess = ref != nil && nameUsable && (r.outKind == "ok" || r.outKind == "symlink") && r.pkgPre == "none" && !faultOnOutput && !faultOnInput
+	}
+	if faultOnOtherRead {
+		c.masked()
+		c.count("read_faults_that_hit_the_runtime_s_own_probing_not_judged", 1)
+		return
+	}
+	if faultOnInput {
+		c.count("read_faults_on_the_specification_file", 1)
 	}
 	if faultOnConsole {
 		c.count("faults_that_hit_a_console_write_announcement_not_judged", 1)
@@ -535,7 +564,7 @@ func c16Execute(c *ctx, bin string, r c16Run) {
 			c.masked()
 			return
 		}
-		bad(fmt.Sprintf("exit status %d", exit), fmt.Sprintf("success expected: %v (in-process reference: %s; name usable: %v; fault on output file: %v)", expectSuccess, orOK(refWhy), nameUsable, faultOnOutput))
+		bad(fmt.Sprintf("exit status %d", exit), fmt.Sprintf("success expected: %v (in-process reference: %s; name usable: %v; fault on output file: %v; read fault on the specification: %v)", expectSuccess, orOK(refWhy), nameUsable, faultOnOutput, faultOnInput))
 		return
 	}
 	if exit == 0 {
@@ -687,6 +716,60 @@ func runC16(c *ctx) {
 				add(c16Run{name: fmt.Sprintf("fault/%s/openat/%s/%d", k, errno, kth), text: c16Inputs[k], fileKind: k, outKind: "ok", pkgPre: "none", inject: fmt.Sprintf("openat:error=%s:when=%d", errno, kth), useTrace: true})
 			}
 			add(c16Run{name: fmt.Sprintf("fault/%s/mkdirat/%s", k, errno), text: c16Inputs[k], fileKind: k, outKind: "ok", pkgPre: "none", inject: fmt.Sprintf("mkdirat:error=%s:when=1", errno), useTrace: true})
+		}
+	}
+	// (E) persistent faults: from the k-th write on every write fails (a full disk stays full), and every other one
+	for _, k := range []string{"valid", "valid2"} {
+		w, _ := countCalls(c16Inputs[k])
+		for kth := 1; kth <= w+1; kth++ {
+			add(c16Run{name: fmt.Sprintf("fault/%s/write/ENOSPC/%d+", k, kth), text: c16Inputs[k], fileKind: k, outKind: "ok", pkgPre: "none", inject: fmt.Sprintf("write:error=ENOSPC:when=%d+", kth), useTrace: true})
+			if !c.quick() || kth%2 == 0 {
+				add(c16Run{name: fmt.Sprintf("fault/%s/write/EIO/%d+2", k, kth), text: c16Inputs[k], fileKind: k, outKind: "ok", pkgPre: "none", inject: fmt.Sprintf("write:error=EIO:when=%d+2", kth), useTrace: true})
+			}
+		}
+		// (F) the specification cannot be read (completely)
+		for kth := 1; kth <= 12; kth++ {
+			add(c16Run{name: fmt.Sprintf("fault/%s/read/EIO/%d", k, kth), text: c16Inputs[k], fileKind: k, outKind: "ok", pkgPre: "none", inject: fmt.Sprintf("read:error=EIO:when=%d", kth), useTrace: true})
+		}
+	}
+	// (G) generated specifications (other sizes, other numbers of writes), fault-free and with every k-th write failing
+	rg := c.rng("gen")
+	nGen := c.n(6, 60)
+	for gi, tries := 0, 0; gi < nGen && tries < 40*nGen; tries++ {
+		g := genWellFormedSpec(rg, wfOpts{nNT: 1 + rg.intn(3), nTok: rg.intn(3), nStr: 1 + rg.intn(4), nExtraRules: rg.intn(3), nDirectives: rg.intn(3), depth: 1 + rg.intn(2), ruleHandles: true})
+		text := canonicalText(g)
+		rd := refRead(text)
+		if rd.Tree == nil || !isUsableGoPackageName(rd.Tree.Name) {
+			continue
+		}
+		if ref, _ := referenceGeneration(text, ""); ref == nil {
+			continue
+		}
+		gi++
+		gn := rd.Tree.Name
+		for fi, fs := range flagSets {
+			add(c16Run{name: fmt.Sprintf("gen%d/f%d", gi, fi), text: text, fileKind: "gen", gramName: gn, flags: fs, outKind: "ok", pkgPre: "none", useTrace: true})
+		}
+		add(c16Run{name: fmt.Sprintf("gen%d/named", gi), text: text, fileKind: "gen", gramName: gn, pkgName: "renamed", outKind: "symlink", pkgPre: "none", useTrace: true})
+		for _, pp := range []string{"emptydir", "dirwithfiles", "file", "dangling", "symlinkdir"} {
+			add(c16Run{name: fmt.Sprintf("gen%d/pre/%s", gi, pp), text: text, fileKind: "gen", gramName: gn, outKind: "ok", pkgPre: pp, useTrace: true})
+		}
+		w, _ := countCalls(text)
+		for kth := 1; kth <= w+1; kth++ {
+			add(c16Run{name: fmt.Sprintf("gen%d/write/ENOSPC/%d", gi, kth), text: text, fileKind: "gen", gramName: gn, outKind: "ok", pkgPre: "none", inject: fmt.Sprintf("write:error=ENOSPC:when=%d", kth), useTrace: true})
+			if !c.quick() {
+				add(c16Run{name: fmt.Sprintf("gen%d/write/ENOSPC/%d+", gi, kth), text: text, fileKind: "gen", gramName: gn, outKind: "ok", pkgPre: "none", inject: fmt.Sprintf("write:error=ENOSPC:when=%d+", kth), useTrace: true})
+			}
+		}
+	}
+	// (H) thorough: every name x every pre-state of <out>/<name>
+	if !c.quick() {
+		for i, n := range names {
+			for _, ok := range []string{"ok", "missing", "symlink"} {
+				for _, pp := range []string{"emptydir", "dirwithfiles", "file", "dangling", "symlinkdir"} {
+					add(c16Run{name: fmt.Sprintf("name%d/%q/%s/%s", i, n, ok, pp), text: c16Valid, fileKind: "valid", pkgName: n, outKind: ok, pkgPre: pp, useTrace: i%2 == 0})
+				}
+			}
 		}
 	}
 	sort.SliceStable(runs, func(i, j int) bool { return false })
